@@ -25,28 +25,23 @@ Definition ok_survivors (finished : list Z) (d : files) : bool :=
 
 Definition csv_ids (d : files) : list Z := flat_map (fun fc => if is_csv (fst fc) then ids (snd fc) else []) d.
 
-(* the disks after every prefix of a trace (head = before any operation) *)
-Fixpoint disks (s : fsys) (tr : list op) : list files :=
-  disk s :: match tr with [] => [] | o :: t => disks (exec_op s o) t end.
+(* the disks after every operation of a trace; with the initial disk in front: the disks at all crash points *)
+Fixpoint steps (s : fsys) (tr : list op) : list files :=
+  match tr with [] => [] | o :: t => disk (exec_op s o) :: steps (exec_op s o) t end.
+Definition disks (s : fsys) (tr : list op) : list files := disk s :: steps s tr.
 
 (* no row id present in a *.csv file before is missing after *)
 Definition no_loss (d d' : files) : bool := forallb (fun i => zmem i (csv_ids d')) (csv_ids d).
-Fixpoint chainb (l : list files) : bool :=
-  match l with
-  | a :: ((b :: _) as t) => no_loss a b && chainb t
-  | _ => true
-  end.
+Fixpoint chainb (d : files) (l : list files) : bool :=
+  match l with [] => true | x :: t => no_loss d x && chainb x t end.
 
 Definition fs0 : fsys := mkFs [] None.
 
-(* first crash point at which a *.csv file is not a well-formed results file, if any *)
+(* first crash point at which a *.csv file is not a well-formed results file / at which a row id has been lost, if any *)
 Fixpoint first_bad {A} (f : A -> bool) (l : list A) (i : nat) : option nat :=
   match l with [] => None | x :: t => if f x then first_bad f t (S i) else Some i end.
-Fixpoint first_loss (l : list files) (i : nat) : option nat :=
-  match l with
-  | a :: ((b :: _) as t) => if no_loss a b then first_loss t (S i) else Some (S i)
-  | _ => None
-  end.
+Fixpoint first_loss (d : files) (l : list files) (i : nat) : option nat :=
+  match l with [] => None | x :: t => if no_loss d x then first_loss x t (S i) else Some i end.
 
 Definition ok_trace (finished : list Z) (tr : list op) : bool :=
-  forallb (ok_survivors finished) (disks fs0 tr) && chainb (disks fs0 tr).
+  forallb (ok_survivors finished) (disks fs0 tr) && chainb (disk fs0) (steps fs0 tr).
